@@ -163,14 +163,21 @@ class NeuronProbe:
     NeuronCore vocabulary (category mode)."""
 
     def __init__(self, cls, shape, batch, D, R, tick, lock, adapt, params, lax, batch_reduction=None,
-                 module=None):
+                 module=None, dt_built=None):
         self.cls, self.shape, self.batch = cls, tuple(shape), batch
         self.D, self.R, self.tick, self.lock, self.adapt, self.lax = D, R, float(tick), lock, adapt, lax
         self.dt = D * self.tick
         self.refrac_t = R * self.tick
         self.params = params
-        self.n = module if module is not None else build(cls, shape, batch, self.dt, self.refrac_t, params,
-                                                          batch_reduction)
+        if module is not None:
+            self.n = module
+        elif dt_built is None:
+            self.n = build(cls, shape, batch, self.dt, self.refrac_t, params, batch_reduction)
+        else:
+            # built with another step time and brought to `dt` through the public setter: the step contract must hold
+            # with the step time the neuron reports (constants derived from dt must follow the setter)
+            self.n = build(cls, shape, batch, dt_built, self.refrac_t, params, batch_reduction)
+            self.n.dt = self.dt
         self.E = batch * int(math.prod(self.shape))
         self.nan_seen = False
 
